@@ -12,7 +12,7 @@ for r in json.load(open("/verif/mutants/RESULTS.json")):
 print("\n#### Seeded changes (seeded/<name>/meta.json)\n")
 print("| change | property | what it does / what it needs | caught by (quick tier) |")
 print("|---|---|---|---|")
-for d in sorted(glob.glob("/verif/seeded/*")):
+for d in sorted([d for d in glob.glob("/verif/seeded/C*") if os.path.isdir(d)]):
     m = json.load(open(os.path.join(d, "meta.json")))
     caught = ", ".join(m["detected_by"]) or "— (missed)"
     prim = "yes" if m.get("detected_by_primary_check") else "NO"
